@@ -141,7 +141,12 @@ class Block:
             if not new_circuit.has_gate(_input):
                 new_circuit._emplace_gate(label=_input, gate_type=gate.INPUT)
 
+        added: set[gate.Label] = set()
         for gate_label in self.gates:
+            if gate_label in added:
+                # a member listed several times is still one gate
+                continue
+            added.add(gate_label)
             cur_gate: gate.Gate = self._owner.get_gate(gate_label)
             new_circuit._emplace_gate(
                 label=cur_gate.label,
